@@ -5,7 +5,7 @@ from analysis import (Prov, Guards, fmt, fmt_short, walk, roots, short, comparis
                       must_pass, const_int_of, writes_into, _lin_add)
 from aff import Aff, Fact
 from facts import AnchorError, strip_closure
-from harness import Rule
+from harness import Rule, guarded
 from c01 import bool_pass_edges
 
 PID = "C05"
@@ -374,5 +374,5 @@ def r4(ctx):
 
 
 def run(ctx):
-    a, b = r1_r2(ctx)
-    return [a, b, r3(ctx), r4(ctx)]
+    G = lambda l, f, *a: guarded("C05." + l, f, ctx, *a)
+    return G("R1-R2", r1_r2) + G("R3", r3) + G("R4", r4)
